@@ -130,6 +130,21 @@ NoExcludedInl(q, inEmph) ==
        /\ q[i].k \in EmphKinds \cup {"link", "img"} => \A x \in DOMAIN q[i].body : IsSimple(q[i].body[x])
   /\ \A i \in 1..(Len(q) - 1) : ~(IsEmph(q[i]) /\ IsEmph(q[i + 1]) /\ q[i].j = "none")
 
+(* Delimiter runs must be able to open / close (CommonMark flanking rules), otherwise an intended
+   closer stays open and pairs with a later run -- which could nest emphasis.  Only the classes of the
+   neighbouring source characters matter: "s" whitespace (also line start / end), "p" punctuation
+   (every lexeme, code span, link, image, autolink and delimiter starts and ends with one), "w" other. *)
+FirstClass(a) == IF a.k = "w" THEN "w" ELSE "p"
+LastClass(a)  == IF a.k = "w" THEN "w" ELSE "p"
+OpenOK(c, P, bf)  == P \in {"s", "p"} \/ (c = "*" /\ bf = "w")
+CloseOK(c, bl, N) == N \in {"s", "p"} \/ (c = "*" /\ bl = "w")
+FlankOK(q) ==
+  \A i \in DOMAIN q : IsEmph(q[i]) =>
+     LET b == q[i].body
+         P == IF i = 1 \/ q[i - 1].j # "none" THEN "s" ELSE LastClass(q[i - 1])
+         N == IF i = Len(q) \/ q[i].j # "none" THEN "s" ELSE FirstClass(q[i + 1])
+     IN OpenOK(q[i].c, P, FirstClass(b[1])) /\ CloseOK(q[i].c, LastClass(b[Len(b)]), N)
+
 (* an inline sequence that can be closed: hard breaks are inner atoms *)
 InlClosed(q) == q # <<>> /\ q[1].k # "br" /\ q[Len(q)].k # "br"
 
@@ -283,7 +298,7 @@ OKChild(ctx, first, prev, b) ==
 RECURSIVE WFBlocks(_, _)
 WFBlock(ctx, first, prev, b) ==
   /\ OKChild(ctx, first, prev, b)
-  /\ b.k \in {"para", "atx"} => (InlClosed(b.inl) /\ Len(b.inl) <= MaxInl /\ NoExcludedInl(b.inl, FALSE))
+  /\ b.k \in {"para", "atx"} => (InlClosed(b.inl) /\ Len(b.inl) <= MaxInl /\ NoExcludedInl(b.inl, FALSE) /\ FlankOK(b.inl))
   /\ b.k = "atx" => InlLineCount(b.inl) = 1
   /\ b.k \in ContainerKinds => \A i \in DOMAIN b.items : WFBlocks([k |-> b.k, c |-> b.c, s |-> b.s], b.items[i])
 WFBlocks(ctx, bs) ==
@@ -380,6 +395,7 @@ AddAtom == /\ Building /\ cur.blk.k # "none" /\ wantA # ""
                     blk2 == [cur.blk EXCEPT !.inl = Append(@, a)]
                 IN /\ ((last \/ a0.k = "br") => j = "sp")     \* the join of the last atom / of br is not used
                    /\ AtomOK(cur.blk, a, last)
+                   /\ FlankOK([blk2.inl EXCEPT ![Len(blk2.inl)] = J(@, "sp")])   \* what follows the new atom is checked with the next one
                    /\ IF last
                       THEN /\ stack' = Settle(AddKid(stack, blk2))
                            /\ cur' = NoLeaf
